@@ -16,6 +16,7 @@ EXPLANATION = (
     "history line was copied into the buffer; the splitter slices at find(';') offsets. R5 (DOM): Up/Down step history.index only under "
     "a guard on it (or clamp it), and reset the cursor only under such a guard - a history key that does not change the focused entry leaves "
     "the cursor alone, as a plain editor does."
+    ' R1 also checks byte-index sinks (String::insert/remove/...: the position must be a boundary-safe byte offset). R4 also: update_next returns only with the draft focused (copy and focus reset on every path). R8: clearing the edit buffer is followed by cursor := 0 on every path to the return.'
 )
 NOT_DECIDED = "equality with a reference editor for all key sequences; that helper results are <= the character count (value-level)"
 
